@@ -4,6 +4,11 @@ import json, os, sys
 HERE = os.path.dirname(os.path.dirname(os.path.abspath(__file__)))
 
 CHECKS = {
+ "C07": dict(
+   technique="differential property-based testing: helper versus URL-level function on generated inputs (exhaustive bare-hostname panel + Hypothesis URLs with padding, control characters and redirect wrappers)",
+   text="get_normalized_hostname / get_fingerprinted_hostname against the host of normalize_url / fingerprint_url; normalize_hostname / fingerprint_hostname against the URL-level result for 'http://'+h over 21 label prefixes x 13 base hosts x options x paddings; the three *_lru_stems variants against lru_stems of the string result (minus the scheme stem when stripped) under their option sets x suffix_aware; get_hostname against the standard parser after ensuring a scheme.",
+   note="Trusted base: vlib/urlref.split for reading the host of a result; urllib.parse.urlsplit for get_hostname. Inputs whose (resolved) URL cannot be parsed are skipped for the host/stem relations (C05 covers them).",
+   design="§4 C07"),
  "C06": dict(
    technique="metamorphic property-based testing with harness-owned ISO-3166 and suffix lists: exhaustive panels (all codes, ports, positions, suffix pairs, negative controls) + Hypothesis compositions",
    text="f(T(u)) == f(u) for case flips, ports, every ISO-3166 code as 'xx.' and a grid of 'xx-yy.', gl/hl at every position, all ordered pairs of a 12-suffix panel under strip_suffix=True, and compositions with the documented-irrelevant family, under the four strip_suffix x platform_aware settings; the result must carry no scheme, userinfo, port or upper-case letter; negative controls (non-ISO labels, two-label hosts, gl/hl look-alikes, suffix swap without strip_suffix) must change the fingerprint.",
